@@ -269,7 +269,11 @@ package shimagent
 //@ import agent "golang.org/x/crypto/ssh/agent"
 //@ # wire blob of an agent.Key / what a no-upstream shim hides: a certificate blob that parses and whose key id decodes as a YSSHCA KeyID
 //@ ghost func akBlob(k *agent.Key) int = contentOf(elems(k.Blob), off(k.Blob), len(k.Blob))
-//@ ghost func hiddenBlob(b int) bool = certBlob(b) && parseOKid(b) && keyid.decOK(certKeyId(b))
+//@ # ysshca(kid): the key id decodes as a YSSHCA KeyID. Kept as a symbol of its own (its meaning, keyid.decOK, is a large formula
+//@ # that is only needed where keyid.Unmarshal is called); the axiom below is a definition, not an assumption about the code.
+//@ ghost func ysshca(kid string) bool
+//@ axiom ysshca_is_decodable(kid string): ysshca(kid) <==> keyid.decOK(kid)
+//@ ghost func hiddenBlob(b int) bool = certBlob(b) && parseOKid(b) && ysshca(certKeyId(b))
 
 //@ func marshalAgentKey(key)
 //@   requires key != nil && pl(key) != 0
@@ -321,7 +325,7 @@ package shimagent
 //@     invariant [in-memory-certificates-stay-listed] forall(h#bytes, h in dom(s.certs), exists(i, 0 <= i && i < len(keys), akBlob(keys[i]) == blobid(asKey(s.certs[h]))))
 
 //@ # ---------------------------------------------------------------- Signers: the same purge and the same hiding rule as List
-//@ ghost func hiddenKey(k ssh.PublicKey) bool = keyutil.castable(k) && keyid.decOK(keyutil.keyIdOfKey(k))
+//@ ghost func hiddenKey(k ssh.PublicKey) bool = keyutil.castable(k) && ysshca(keyutil.keyIdOfKey(k))
 //@ func (*Server).Signers(s)
 //@   requires s != nil && inv(s) && unheld(s) && inv2(s)
 //@   modifies mstate(addrof(s.mu)), mapof(s.certs), mapof(s.upstreamSSHCACertCache)
